@@ -14,6 +14,8 @@ ASSUMPTIONS = [
     'R-compat: legacy: $x/$x, !x/!x, >x/<x with identical label and order digit; otherwise only the symbol kind',
     'a bond at an atom shared by several coarse nodes is attributed to one base edge (existence of an attribution within the edge orders)',
     'under the label-insensitive convention the bond may carry the order of either descriptor',
+    'a cut bond between two atoms written as aromatic whose ring pysmiles returns kekulised (five-membered hetero-aromatics) '
+    'carries its Kekule order 1 or 2 instead of 1.5, like every other bond of that ring',
 ]
 EXPLANATION = 'bounded-exhaustive enumeration of base graph x ambiguous fragment library x convention on the real resolver'
 
